@@ -168,3 +168,38 @@ pub fn is_euclidean<T: DSym>(ds: &T) -> Euclidean {
         fail("no pseudo-toroidal cover")
     }
 }
+
+
+// Verification hooks (compiled only with --cfg odf_rust_dsymbols_verif): public
+// wrappers for the private helpers of the euclidicity cascade, so that each can
+// be driven and compared with its model in isolation.
+#[cfg(odf_rust_dsymbols_verif)]
+pub mod verif_hooks {
+    use super::*;
+
+    pub fn orbifold_invariant<T: DSym>(ds: &T) -> String {
+        super::orbifold_invariant(ds)
+    }
+
+    pub fn invariants_contains(s: &str) -> bool {
+        INVARIANTS.contains(s)
+    }
+
+    pub fn bad_subgroup_invariants(
+        fg: &FundamentalGroup, index: usize, expected: Vec<usize>
+    ) -> bool
+    {
+        super::bad_subgroup_invariants(fg, index, expected)
+    }
+
+    pub fn bad_connected_components(ds: &PartialDSym) -> bool {
+        super::bad_connected_components(ds)
+    }
+
+    pub fn bad_subgroup_count(
+        fg: &FundamentalGroup, index: usize, expected: usize
+    ) -> bool
+    {
+        super::bad_subgroup_count(fg, index, expected)
+    }
+}
